@@ -11,7 +11,10 @@
 //       rc s             ReadChanges            wm s v       write model variant   rm s            ReadAuthorizationModels (ranks)
 //       wa s o r u e     write assertions       ra s         read assertions       gs s            GetStore
 //       ls s             ListStores (which of this case's stores are listed)       ds s            DeleteStore
-//       ex s o r         Expand
+//       ex s o r         Expand                 ln s             ListStores with the store's own name as filter
+//
+// `iso` runs on the memory backend, `isq` (same format) on a fresh sqlite database per run.  `st …` = storage-level
+// histories on both backends (store.go), `sf …` = overlapping typesystem resolutions over a slow datastore (harness/sfres).
 package main
 
 import (
@@ -27,9 +30,10 @@ import (
 	"google.golang.org/protobuf/types/known/structpb"
 
 	"github.com/openfga/openfga/pkg/server"
-	"github.com/openfga/openfga/pkg/storage/memory"
+	"github.com/openfga/openfga/pkg/storage"
 	"github.com/openfga/openfga/verifharness/fga"
 	"github.com/openfga/openfga/verifharness/hx"
+	"github.com/openfga/openfga/verifharness/sfres"
 )
 
 // model variants: same names everywhere, different meanings
@@ -99,6 +103,19 @@ func undash(s string) string {
 func gen(r *hx.Rand, n int, tier string, emit func(string), st *hx.Stats) {
 	for i := 0; i < n; i++ {
 		c := r.Fork()
+		kind := "iso"
+		switch p := c.Intn(100); {
+		case p < 30:
+		case p < 42:
+			kind = "isq"
+		case p < 90:
+			emit(genStore(c, st))
+			continue
+		default:
+			st.Inc("resolver-flights")
+			emit(sfres.Gen(c, false))
+			continue
+		}
 		nops := 20 + c.Intn(25)
 		var ops []string
 		// every store starts with a model (possibly different variants)
@@ -121,18 +138,38 @@ func gen(r *hx.Rand, n int, tier string, emit func(string), st *hx.Stats) {
 			pool = append(pool, tup{o, hx.Pick(c, relsByType[fga.TypeOf(o)]), hx.Pick(c, users)})
 		}
 		deleted := -1
+		written := map[int][]tup{}
 		for k := 0; k < nops; k++ {
 			s := c.Intn(3)
 			t := hx.Pick(c, pool)
-			switch p := c.Intn(46); {
+			switch p := c.Intn(50); {
+			case p >= 46:
+				// a question about a tuple this store was given (direct hit if the write was accepted), put to EVERY store
+				if len(written[s]) == 0 {
+					ops = append(ops, fmt.Sprintf("wt %d %s %s %s -", s, t.o, t.r, t.u))
+					written[s] = append(written[s], t)
+					break
+				}
+				w := hx.Pick(c, written[s])
+				perm := []int{0, 1, 2}
+				hx.Shuffle(c, perm)
+				for _, s2 := range perm {
+					if fga.TypeOf(w.o) == "doc" && !strings.Contains(w.u, "#") && w.u != "user:*" && c.Bool() {
+						ops = append(ops, fmt.Sprintf("lo %d doc %s %s", s2, w.r, w.u))
+					} else {
+						ops = append(ops, fmt.Sprintf("ck %d %s %s %s %d", s2, w.o, w.r, w.u, c.Intn(2)))
+					}
+				}
 			case p >= 40:
 				ops = append(ops, fmt.Sprintf("wt %d %s %s %s -", s, t.o, t.r, t.u))
+				written[s] = append(written[s], t)
 			case p < 10:
 				cond := "-"
 				if c.Chance(1, 5) {
 					cond = "c1"
 				}
 				ops = append(ops, fmt.Sprintf("wt %d %s %s %s %s", s, t.o, t.r, t.u, cond))
+				written[s] = append(written[s], t)
 			case p < 13:
 				ops = append(ops, fmt.Sprintf("dt %d %s %s %s", s, t.o, t.r, t.u))
 			case p < 16:
@@ -179,11 +216,11 @@ func gen(r *hx.Rand, n int, tier string, emit func(string), st *hx.Stats) {
 			case p < 38:
 				ops = append(ops, fmt.Sprintf("gs %d", s))
 			case p < 39:
-				ops = append(ops, fmt.Sprintf("ls %d", s))
+				ops = append(ops, fmt.Sprintf("%s %d", hx.Pick(c, []string{"ls", "ln"}), s))
 			default:
 				if deleted < 0 && k > nops/2 {
 					deleted = s
-					ops = append(ops, fmt.Sprintf("ds %d", s))
+					ops = append(ops, fmt.Sprintf("ds %d", s), fmt.Sprintf("ln %d", s))
 				} else {
 					o := hx.Pick(c, objs)
 					ops = append(ops, fmt.Sprintf("ex %d %s %s", s, o, hx.Pick(c, relsByType[fga.TypeOf(o)])))
@@ -191,11 +228,11 @@ func gen(r *hx.Rand, n int, tier string, emit func(string), st *hx.Stats) {
 			}
 		}
 		for s := 0; s < 3; s++ {
-			ops = append(ops, fmt.Sprintf("gs %d", s), fmt.Sprintf("ls %d", s), fmt.Sprintf("rd %d - - -", s))
+			ops = append(ops, fmt.Sprintf("gs %d", s), fmt.Sprintf("ls %d", s), fmt.Sprintf("ln %d", s), fmt.Sprintf("rd %d - - -", s))
 		}
 		engine := c.Intn(2)
-		emit(fmt.Sprintf("iso %d %d %s", engine, len(ops), strings.Join(ops, " ")))
-		st.Inc(fmt.Sprintf("engine-%d", engine))
+		emit(fmt.Sprintf("%s %d %d %s", kind, engine, len(ops), strings.Join(ops, " ")))
+		st.Inc(fmt.Sprintf("%s-engine-%d", kind, engine))
 		if deleted >= 0 {
 			st.Inc("with-delete-store")
 		}
@@ -210,7 +247,7 @@ type op struct {
 	a    []string
 }
 
-var arity = map[string]int{"wt": 4, "dt": 3, "ck": 4, "lo": 3, "lu": 2, "rd": 3, "rc": 0, "wm": 1, "rm": 0, "wa": 4, "ra": 0, "gs": 0, "ls": 0, "ds": 0, "ex": 2}
+var arity = map[string]int{"wt": 4, "dt": 3, "ck": 4, "lo": 3, "lu": 2, "rd": 3, "rc": 0, "wm": 1, "rm": 0, "wa": 4, "ra": 0, "gs": 0, "ls": 0, "ln": 0, "ds": 0, "ex": 2}
 
 func parseOps(t *fga.Toks) []op {
 	n := t.Int()
@@ -226,9 +263,9 @@ func parseOps(t *fga.Toks) []op {
 	return out
 }
 
-func newServer(engine int) *server.Server {
+func newServer(engine int, ds storage.OpenFGADatastore) *server.Server {
 	opts := []server.OpenFGAServiceV1Option{
-		server.WithDatastore(memory.New()),
+		server.WithDatastore(ds),
 		server.WithCheckQueryCacheEnabled(true), server.WithCheckCacheLimit(100000), server.WithCheckQueryCacheTTL(time.Hour),
 		server.WithCheckIteratorCacheEnabled(true), server.WithCheckIteratorCacheMaxResults(10000), server.WithCheckIteratorCacheTTL(time.Hour),
 		server.WithListObjectsIteratorCacheEnabled(true), server.WithListObjectsIteratorCacheMaxResults(10000), server.WithListObjectsIteratorCacheTTL(time.Hour),
@@ -280,8 +317,10 @@ func tkStr(k *openfgav1.TupleKey) string {
 
 // runOps executes `ops` (only those whose store index is in `only`, nil = all) on a fresh server and returns one answer per
 // executed op, in order.
-func runOps(engine int, ops []op, only map[int]bool) []string {
-	s := newServer(engine)
+func runOps(backend string, engine int, ops []op, only map[int]bool) []string {
+	ds, done := newDatastore(backend)
+	defer done()
+	s := newServer(engine, ds)
 	defer s.Close()
 	ctx := context.Background()
 	stores := map[int]*storeRun{}
@@ -482,13 +521,17 @@ func runOps(engine int, ops []op, only map[int]bool) []string {
 			} else {
 				res = "name=" + resp.GetName()
 			}
-		case "ls":
+		case "ls", "ln":
 			// is MY store listed? (other stores of the case are reported by their own ops)
 			listed := false
 			tok := ""
 			bad := ""
+			name := ""
+			if o.kind == "ln" {
+				name = fmt.Sprintf("c16-%d", o.s)
+			}
 			for {
-				resp, err := s.ListStores(ctx, &openfgav1.ListStoresRequest{ContinuationToken: tok})
+				resp, err := s.ListStores(ctx, &openfgav1.ListStoresRequest{ContinuationToken: tok, Name: name})
 				if err != nil {
 					bad = short(err)
 					break
@@ -562,21 +605,33 @@ func runOps(engine int, ops []op, only map[int]bool) []string {
 }
 
 func exec(line string, st *hx.Stats) string {
+	backend := "m"
+	switch {
+	case strings.HasPrefix(line, "st "):
+		return execStore(line)
+	case strings.HasPrefix(line, "sf "):
+		return sfres.Exec(line)
+	case strings.HasPrefix(line, "isq "):
+		backend = "s"
+	}
 	t := fga.NewToks(line)
-	t.Expect("iso")
+	t.Next()
 	engine := t.Int()
 	ops := parseOps(t)
-	inter := runOps(engine, ops, nil)
+	inter := runOps(backend, engine, ops, nil)
 	var sb strings.Builder
 	sb.WriteString("I")
 	for i, r := range inter {
 		fmt.Fprintf(&sb, " %d:%s", ops[i].s, r)
 	}
 	for s := 0; s < 3; s++ {
-		solo := runOps(engine, ops, map[int]bool{s: true})
+		solo := runOps(backend, engine, ops, map[int]bool{s: true})
 		fmt.Fprintf(&sb, " | A%d %s", s, strings.Join(solo, " "))
 	}
 	return sb.String()
 }
 
-func main() { hx.Main(hx.Harness{Gen: gen, Exec: exec}) }
+func main() {
+	defer cleanupSqlite()
+	hx.Main(hx.Harness{Gen: gen, Exec: exec})
+}
